@@ -122,6 +122,22 @@ func (h *Hist) Note(n int64) {
 
 func JoinCC(parts []string) string { return strings.Join(parts, ", ") }
 
+// CCLines renders a directive list as Cache-Control field lines: mostly one line, now and then
+// with an empty line in front (an empty list element) or split over two lines (a list field
+// may be spread over several field lines, RFC 9110 §5.3) - the meaning is the same.
+func CCLines(t *rapid.T, label string, parts []string) [][2]string {
+	switch Weighted(t, label+"-cclines", 80, 10, 10) {
+	case 1:
+		return [][2]string{H("Cache-Control", ""), H("Cache-Control", JoinCC(parts))}
+	case 2:
+		if len(parts) >= 2 {
+			k := rapid.IntRange(1, len(parts)-1).Draw(t, label+"-ccsplit")
+			return [][2]string{H("Cache-Control", JoinCC(parts[:k])), H("Cache-Control", JoinCC(parts[k:]))}
+		}
+	}
+	return [][2]string{H("Cache-Control", JoinCC(parts))}
+}
+
 func H(k, v string) [2]string { return [2]string{k, v} }
 
 func SleepStep(sec int64) world.Step { return world.Step{Op: "sleep", DurNs: sec * Sec} }
